@@ -169,7 +169,10 @@ pub fn on_server_message(sim: &mut Sim, c: usize, ch: usize, bytes: &[u8], id: u
             );
         }
         if msg.entities.is_empty() && !sim.prof.app.track {
-            sim.violate("C11", "empty_mutate_message", format!("empty mutate message sent to client {c} at tick {t} without tracking"));
+            // Not a violation by itself: when a message ends exactly at a multiple of the maximum size an
+            // empty group chunk is packed into a message of its own. An idle server sending such
+            // messages is caught by the silence oracle in quiescence.
+            sim.stats.probe("empty_mutate_message_without_tracking");
         }
     } else if Some(ch) == sim.chans.mismatch() {
         sim.clients[c].sess.as_mut().unwrap().mismatch_sent += 1;
@@ -627,6 +630,15 @@ pub fn after_client_frame(sim: &mut Sim, c: usize) {
                             if k == Kind::Link && !sim.no_taint && link_tainted(sess, *se, *lt) {
                                 continue;
                             }
+                            // A relationship to an entity the client does not hold is a don't-care: the
+                            // client gets a placeholder, or Bevy removes the relationship again.
+                            if k == Kind::Link {
+                                if let Some(Val::Ent(t)) = sc.get(&k) {
+                                    if !exp.contains_key(t) {
+                                        continue;
+                                    }
+                                }
+                            }
                             v.push(("C03", "component_presence", format!("client {c}: entity {se:#x} at update tick {u}: {k:?} present on server={} on client={}", sc.contains_key(&k), comps.contains_key(&k))));
                         }
                     }
@@ -989,13 +1001,24 @@ pub fn end_of_run(sim: &mut Sim) {
                             if k == Kind::Link && !sim.no_taint && link_tainted(sess, bits, *lt) {
                                 continue;
                             }
+                            if k == Kind::Link {
+                                if let Some(Val::Ent(t)) = a {
+                                    let te = Entity::from_bits(*t);
+                                    let live = sim.slot_of(*t).is_some() && sim.replicated(te) && sim.visible(c, *t);
+                                    if !live {
+                                        continue;
+                                    }
+                                }
+                            }
                             v.push(("C01", "component_presence", format!("client {c}: slot {i} {k:?} server={a:?} client={b:?} after quiescence")));
                             continue;
                         }
                         let (Some(a), Some(b)) = (a, b) else { continue };
                         match k {
                             Kind::P => {
-                                if a != b {
+                                if a != b && !sim.no_taint && sess.f20_ents.contains(&bits) {
+                                    *sim.stats.probes.entry("known_F20_hit".into()).or_insert(0) += 1;
+                                } else if a != b {
                                     let Val::Ver(sv) = a else { continue };
                                     if !sim.no_taint && sess.p_taint.contains(&(bits ^ ((*sv as u64) << 40))) {
                                         sim.stats.probes.entry("known_F4_hit".into()).and_modify(|x| *x += 1).or_insert(1);
